@@ -111,6 +111,9 @@ def c06(run):
     run.trace("history", Q(run, 20, 200), types=FR, seed_off=400, poison=2, small=True)
     run.trace("history", Q(run, 20, 200), types=FR, seed_off=450, poison=1, small=True)
     run.trace("history", Q(run, 1, 10), seed_off=500, poison=1, small=True)
+    # the same histories by 16 goroutines at once, all types mixed (pad bytes, byte orders and checksum algorithms differ between them): what an
+    # encode appends may not depend on what other goroutines encode at the same time - judged on the results of the calls only
+    run.parallel("history", Q(run, 1, 6), goroutines=16, rounds=Q(run, 3, 6), seed_off=600, race_filter="RESULTS-ONLY", prop_clauses="C06", abort_violates=False, small=True)
     return run.finish(RULE_WIRE + RULE_TRACE + RULE_POISON)
 
 
